@@ -48,6 +48,8 @@ RegionsOf(fam, part) ==
       [] fam = "face" -> First(part, {<<WholeFace>>})
       [] fam = "hole1" -> {<<Hull, h>> : h \in PR(HolesIn, part)}
       [] fam = "hole2" -> UNION {{<<Hull, h1, h2>> : h2 \in {h \in HolesIn : Separated(h1, h) /\ RKey(h1) < RKey(h)}} : h1 \in PR(HolesIn, part)}
+      \* two separate shells (they may touch at a corner), the second possibly with a hole
+      [] fam = "shells2" -> UNION {{<<r1, r2>> : r2 \in {r \in AllRects : Separated(r1, r) /\ RKey(r1) < RKey(r)}} : r1 \in PR(AllRects, part)}
       [] fam = "island" -> {<<Hull, HoleHull, r>> : r \in {r \in PR(HoleRects, part) : StrictlyInside(r, HoleHull)}}
       [] fam = "facehole" -> {<<WholeFace, r>> : r \in {r \in PR(AllRects, part) : StrictlyInside(r, WholeFace)}}
       [] fam = "stair" -> First(part,
